@@ -1,6 +1,8 @@
 // Package refused: functions OUTSIDE the subset of the translator; gen/trans_test.go checks that each is refused.
 package refused
 
+import "errors"
+
 type Box struct {
 	data []int
 	n    int
@@ -71,6 +73,75 @@ func Defer(n int) (r int) {
 func (b *Box) OrderDep() int {
 	return b.n + b.Bump()
 }
+
+// ---- with TransSpec.InOut ------------------------------------------------------------------------
+
+// the parameter is written AND returned: the result would share its array with the caller's slice
+func EscWrite(s []int) []int {
+	s[0] = 1
+	return s
+}
+
+func both(a, b []int) { a[0] = b[0] + 1 }
+
+// the same array in two argument positions of a call that writes one of them
+func TwiceSame(s []int) { both(s, s) }
+
+func lessInt(a, b int) bool { return a < b }
+
+func pick(a, b int, less func(int, int) bool) int {
+	if less(a, b) {
+		return a
+	}
+	return b
+}
+
+// a function of the package as a pure function value: it is not known to be total
+func UsePure(a, b int) int { return pick(a, b, lessInt) }
+
+// a function-typed result
+func Getter(n int) func(int, int) bool { return nil }
+
+// a nil function
+func NilFunc(a, b int) int {
+	var f func(int, int) bool
+	if f(a, b) {
+		return a
+	}
+	return b
+}
+
+// writing a part of a slice through an in-out position
+func both3(s []int) { both(s[1:], s[:1]) }
+
+// ---- [ext:T20] --------------------------------------------------------------------------------------------
+
+var hidden int
+
+// ranging over a string decodes runes
+func RangeString(s string) int {
+	n := 0
+	for range s {
+		n++
+	}
+	return n
+}
+
+func StrCat(a, b string) int { return len(a + b) }
+
+func RuneConv(s string) int { return len([]rune(s)) }
+
+func RuneString(r rune) string { return string(r) }
+
+// a package-level variable that is not listed in TransSpec.Globals
+func GlobalUnlisted() int { return hidden }
+
+var ErrMutable = errors.New("x")
+
+func setErr() { ErrMutable = nil }
+
+// a sentinel error that some function assigns is not a constant
+func MutableSentinel() error { return ErrMutable }
 
 // [BitsCode] a struct literal that keeps a named slice outside a return: the literal and the variable would share
 type Pack struct{ xs []int }
